@@ -23,10 +23,11 @@ for d in sorted(glob.glob("/tmp/seeded-out/*/")):
     os.makedirs(dst, exist_ok=True)
     for f in ["patch.diff", "demo.rs", "notes.md"]:
         shutil.copy(f"{d}/{f}", f"{dst}/{f}")
-    res = run(f"{dst}/patch.diff", [prop] + related.get(prop, []))
+    res = run(f"{dst}/patch.diff", [prop] + (related.get(prop, []) if os.environ.get("WITH_RELATED") else []))
     notes = open(f"{d}/notes.md").read()
     meta = {
-        "id": name, "breaks_property": prop, "origin": "independent sub-agent given only the property text and a scratch worktree",
+        "id": name, "breaks_property": prop, "origin": "independent sub-agent given only the property text and a scratch worktree" + (" (second round: asked to be invisible on graphs with fewer than 5 nodes and histories of fewer than 6 operations)" if name.endswith("-3") else ""),
+        "origin_short": "sub-agent, round 2" if name.endswith("-3") else "sub-agent, round 1",
         "needs_to_manifest": "see notes.md (written by the author of the change)",
         "confirmed_by_me": {"how": "tools/confirm_seeded.sh in a scratch worktree of /repo: git apply; cargo test --offline --no-fail-fast (80 tests + 118 doctests) with tests/seeded_demo.rs added; then without the patch", **conf},
         "checks_run": {k: ("CAUGHT (exit 1)" if v["exit"] == 1 else "not flagged (exit %d)" % v["exit"]) + (": " + v["first_violation"] if v["first_violation"] else "") for k, v in res.items()},
